@@ -82,47 +82,59 @@ theorem slot_clear (t : Table α) (i : Nat) : t.clear.slot i = default := by
 theorem idx_eq (t : Table α) (key : Nat) :
     t.idx key = if t.len = 0 then none else some (key % t.len) := rfl
 
-theorem poll_eq (t : Table α) (key : Nat) :
-    t.poll key = if t.len = 0 then none else some (t.slot (key % t.len)) := by
+/-- Holds for the zero-slot table as well: `key % 0 = key` is outside the table, where `slot` reads
+`default`, which is what the fixed `poll` answers. -/
+theorem poll_eq (t : Table α) (key : Nat) : t.poll key = some (t.slot (key % t.len)) := by
   unfold poll
-  rw [idx_eq]
   by_cases h : t.len = 0
-  · simp only [h, if_true]
-  · simp only [h, if_false]
+  · have h' : t.entries.size = 0 := h
+    simp only [h', if_true]
+    rw [slot_of_ge _ (by omega)]
+  · have h' : ¬ t.entries.size = 0 := h
+    simp only [h', if_false]
     have hk : key % t.len < t.len := Nat.mod_lt _ (Nat.pos_of_ne_zero h)
     rw [slot_of_lt _ hk]
     exact Array.getElem?_eq_getElem hk
 
 theorem add_eq (t : Table α) (key : Nat) (e : α) :
-    t.add key e = if t.len = 0 then none else some ⟨t.entries.setIfInBounds (key % t.len) e⟩ := by
+    t.add key e = some (if t.len = 0 then t else ⟨t.entries.setIfInBounds (key % t.len) e⟩) := by
   unfold add
-  rw [idx_eq]
   by_cases h : t.len = 0
-  · simp only [h, if_true]
-  · simp only [h, if_false]
+  · have h' : t.entries.size = 0 := h
+    simp only [h, h', if_true]
+  · have h' : ¬ t.entries.size = 0 := h
+    simp only [h, h', if_false]
+    rfl
 
-theorem add_eq_none (t : Table α) (key : Nat) (e : α) : t.add key e = none ↔ t.len = 0 := by
-  rw [add_eq]; split <;> simp [*]
+/-- The zero-slot table: every lookup answers `default`, every store is ignored. -/
+theorem poll_zero (t : Table α) (key : Nat) (h : t.len = 0) : t.poll key = some default := by
+  rw [poll_eq, slot_of_ge _ (by omega)]
 
-theorem poll_eq_none (t : Table α) (key : Nat) : t.poll key = none ↔ t.len = 0 := by
-  rw [poll_eq]; split <;> simp [*]
+theorem add_zero (t : Table α) (key : Nat) (e : α) (h : t.len = 0) : t.add key e = some t := by
+  rw [add_eq]; simp only [h, if_true]
+
+theorem add_ne_none (t : Table α) (key : Nat) (e : α) : ∃ t', t.add key e = some t' :=
+  ⟨_, add_eq t key e⟩
+
+theorem poll_ne_none (t : Table α) (key : Nat) : ∃ e, t.poll key = some e :=
+  ⟨_, poll_eq t key⟩
 
 theorem len_add {t t' : Table α} {key : Nat} {e : α} (h : t.add key e = some t') :
     t'.len = t.len := by
   rw [add_eq] at h
-  split at h
-  · cases h
-  · cases h; simp [len]
+  cases h
+  split
+  · rfl
+  · simp [len]
 
 theorem slot_add {t t' : Table α} {key : Nat} {e : α} (h : t.add key e = some t') (i : Nat) :
-    t'.slot i = if i = key % t.len then e else t.slot i := by
+    t'.slot i = if t.len ≠ 0 ∧ i = key % t.len then e else t.slot i := by
   rw [add_eq] at h
-  split at h
-  · cases h
-  · rename_i hn
-    cases h
-    have hk : key % t.len < t.entries.size := Nat.mod_lt _ (Nat.pos_of_ne_zero hn)
-    simp only [slot, Array.getElem?_setIfInBounds]
+  cases h
+  by_cases hn : t.len = 0
+  · simp only [hn, if_true, ne_eq, not_true_eq_false, false_and, if_false]
+  · have hk : key % t.len < t.entries.size := Nat.mod_lt _ (Nat.pos_of_ne_zero hn)
+    simp only [hn, if_false, ne_eq, not_false_eq_true, true_and, slot, Array.getElem?_setIfInBounds]
     by_cases hi : i = key % t.len
     · subst hi; simp [hk]
     · have : ¬ key % t.len = i := fun h => hi h.symm
